@@ -3,6 +3,7 @@
 -/
 import Nlmodel.Model.Printer
 import Nlmodel.Proofs.Lemmas.LexAscii
+import Nlmodel.Proofs.Lemmas.LexCover
 namespace Nl
 namespace C08
 
@@ -64,6 +65,51 @@ example : ∀ t ∈ [Token.kwDeclare, .ident ['x', '1'], .assign, .str (escape [
   · exact ⟨'4', ['2'], rfl, by decide, by decide⟩
   · trivial
   · exact ⟨'1', [], ['5'], rfl, by decide, by decide, by decide⟩
+
+/-! ### nothing is dropped, for ARBITRARY text (`Lemmas/LexCover*.lean`)
+
+  `LC.lexSpans cc src` is the decomposition the tokenizer induces on any text: spans that are a whitespace character,
+  a `//` comment up to the line end, or the exact source text of one token. -/
+
+/-- NO PART OF THE INPUT IS SILENTLY DROPPED: for every text, the spans in order concatenate to the text itself — nothing
+    skipped, reordered or duplicated — and the token spans in order are exactly the tokens the tokenizer returns -/
+theorem C08_nothing_dropped (cc : CharClass) (src : Text) :
+    (LC.lexSpans cc src).flatMap LC.Span.raw = src ∧ LC.tokensOf (LC.lexSpans cc src) = lex cc src :=
+  ⟨LC.lexSpans_concat cc src, LC.tokensOf_lexSpans cc src⟩
+
+/-- EVERY CHARACTER IS ACCOUNTED FOR: position `i` of any text lies in exactly one span, and that span is clean — a
+    whitespace character, a comment without a line break, or the spelling `raw = t.text` of a well-formed token — or it is
+    the illegal token (an unknown character or an unterminated string), which then appears in the token stream -/
+theorem C08_every_character_accounted (cc : CharClass) (src : Text) (i : Nat) (hi : i < src.length) :
+    ∃ A s B, LC.lexSpans cc src = A ++ s :: B ∧
+      (A.flatMap LC.Span.raw).length ≤ i ∧ i < (A.flatMap LC.Span.raw).length + s.raw.length ∧
+      (s.Clean cc ∨ ((∃ raw, s = .tok .illegal raw) ∧ Token.illegal ∈ lex cc src)) :=
+  LC.char_accounted cc src i hi
+
+/-- WHAT CANNOT BE READ IS REJECTED, NEVER DROPPED: a text whose token stream contains the illegal token is never accepted
+    by the parser; the answer is a syntax error, or the type error the tokens BEFORE the unreadable piece already are on
+    their own whatever follows them (the parser reports the first error it meets: `ja = 1 @`, `LC.type_error_first`) -/
+theorem C08_unreadable_text_is_rejected (cc : CharClass) (src : Text) (pre rest : List Token)
+    (h : lex cc src = pre ++ .illegal :: rest) :
+    (∀ b, parse cc src ≠ .ok b) ∧
+    (parse cc src = .error .syntax ∨
+     (parse cc src = .error .type ∧ ∀ rest', parseTokens (pre ++ rest') = .error .type)) :=
+  ⟨fun b => LC.parse_illegal_not_ok cc src (by rw [h]; simp) b, LC.parse_illegal_sharp cc src pre rest h⟩
+
+/-- conversely an ACCEPTED text consists of whitespace, comments and spellings of well-formed tokens only -/
+theorem C08_accepted_text_is_clean (cc : CharClass) (src : Text) (b : Block) (h : parse cc src = .ok b) :
+    Token.illegal ∉ lex cc src ∧ ∀ s ∈ LC.lexSpans cc src, s.Clean cc :=
+  LC.parse_ok_clean cc src b h
+
+/-- KEYWORDS ONLY AS WHOLE WORDS, identifiers and numbers keep their exact spelling (maximal munch on arbitrary text): the
+    span of a word token (identifier or keyword) IS its text and the character after it cannot continue a word; the span
+    of a number IS its text and is not followed by a digit (an integer not by a `.`) -/
+theorem C08_words_and_numbers_are_maximal (cc : CharClass) (src : Text) (A : List LC.Span) (t : Token) (raw : Text) (B : List LC.Span)
+    (h : LC.lexSpans cc src = A ++ .tok t raw :: B) :
+    (t.isWord = true → raw = t.text ∧ ∀ x, (B.flatMap LC.Span.raw).head? = some x → identCont cc x = false) ∧
+    (t.isNum = true → raw = t.text ∧ ∀ x, (B.flatMap LC.Span.raw).head? = some x → isDigit x = false ∧ ((∃ s, t = .int s) → x ≠ '.')) :=
+  ⟨fun hw => let r := LC.word_span_maximal cc src A t raw B h hw; ⟨r.2.1, r.2.2⟩,
+   fun hn => LC.num_span_maximal cc src A t raw B h hn⟩
 
 end C08
 end Nl
